@@ -53,6 +53,7 @@ type Contract struct {
 	IsVar       bool // contract of a function-typed package variable
 	Splits      []*SExpr
 	NoGrow      map[int]bool // append calls (by ordinal) that are proved to fit the capacity; only the in-place result is modelled
+	CallCounts  []CallCount  // "counts call NAME as G": the ghost global G is incremented at every call of NAME made by this function itself
 	Asserts     []*AssertAt
 }
 
@@ -65,6 +66,11 @@ type AsmRet struct {
 }
 
 // AssertAt is an assertion anchored just before the K-th call (in block order) of the named builtin or function.
+type CallCount struct {
+	Callee string
+	Ghost  string
+}
+
 type AssertAt struct {
 	Callee string
 	K      int
@@ -499,6 +505,14 @@ func (cs *Contracts) LoadFile(path, pkg string) error {
 			if c != nil {
 				cur.Asserts = append(cur.Asserts, &AssertAt{Callee: fs[1], K: k, Clause: c, Split: split})
 			}
+		case "counts":
+			// counts call NAME as GHOST
+			fs := strings.Fields(rest)
+			if cur == nil || len(fs) != 4 || fs[0] != "call" || fs[2] != "as" {
+				cs.errf(path, it.line, "bad counts clause (want: counts call NAME as GHOST)")
+				continue
+			}
+			cur.CallCounts = append(cur.CallCounts, CallCount{Callee: fs[1], Ghost: fs[3]})
 		case "nogrow":
 			if cur == nil {
 				continue
